@@ -138,7 +138,7 @@ HPeer(p, bf) ==
     \/ PutPreSync(p) /\ Log(p, "PutPreSync")
     \/ ReceivePreSyncOrDone(p) /\ Log(p, "ReceivePreSyncOrDone")
     \/ (bf => todo[p] = <<>>) /\ SyncRecv(p) /\ Log(p, "SyncRecv")
-    \/ SyncRecvClosed(p) /\ Log(p, "SyncRecvClosed")
+    \/ (bf => todo[p] = <<>>) /\ SyncRecvClosed(p) /\ Log(p, "SyncRecvClosed")
     \/ SyncNextAuthor(p) /\ Log(p, "SyncNextAuthor")
     \/ BurstReadLog(p) /\ Log(p, "BurstReadLog")
     \/ BurstSendOp(p) /\ Log(p, "BurstSendOp")
